@@ -208,7 +208,7 @@ def strategy():
     one = gen.mass_mod(('num', 'formula', 'unimod', 'glycan'))
     static_text = gen.mass_mod_text(('num', 'formula', 'unimod', 'glycan'), gt_ok=False)
     pm = gen.pep_model(alphabet=gen.AA_MASS, min_len=1, max_len=40, kinds=KINDS, mod_strategy=one,
-                       mod_list=st.lists(one, min_size=1, max_size=2), allow_empty=False, static_mod_text=static_text)
+                       mod_list=st.lists(one, min_size=1, max_size=2), allow_empty=False, static_mod_text=static_text, static_max_mult=3)
     add = gen.adduct_text()
 
     @st.composite
